@@ -4,7 +4,7 @@
 /// evaluating conditions on columnar data for specific event types.
 use crate::command::types::Expr;
 use crate::engine::core::CandidateZone;
-use crate::engine::core::filter::condition::PreparedAccessor;
+use crate::engine::core::filter::condition::{FieldAccessor, PreparedAccessor};
 use crate::engine::core::filter::condition_evaluator::ConditionEvaluator;
 use crate::engine::core::filter::condition_evaluator_builder::ConditionEvaluatorBuilder;
 use crate::engine::core::read::sequence::group::RowIndex;
@@ -14,6 +14,38 @@ use std::collections::{HashMap, HashSet};
 use std::sync::Arc;
 use tokio::sync::RwLock;
 use tracing::{debug, info, trace};
+
+/// Accessor over the zones the sequence merger builds from the sub-query batches. Those zones
+/// hold every non-time column as rendered text, so a float such as `80.25` has neither an i64
+/// reading nor a typed f64 view and a numeric condition would find no operand: read the text
+/// as f64 where the column has no typed view.
+struct RenderedZoneAccessor<'a>(PreparedAccessor<'a>);
+
+impl<'a> FieldAccessor for RenderedZoneAccessor<'a> {
+    fn get_str_at(&self, field: &str, index: usize) -> Option<&str> {
+        self.0.get_str_at(field, index)
+    }
+
+    fn get_i64_at(&self, field: &str, index: usize) -> Option<i64> {
+        self.0.get_i64_at(field, index)
+    }
+
+    fn get_u64_at(&self, field: &str, index: usize) -> Option<u64> {
+        self.0.get_u64_at(field, index)
+    }
+
+    fn get_f64_at(&self, field: &str, index: usize) -> Option<f64> {
+        self.0.get_f64_at(field, index).or_else(|| {
+            self.0
+                .get_str_at(field, index)
+                .and_then(|text| text.parse::<f64>().ok())
+        })
+    }
+
+    fn event_count(&self) -> usize {
+        self.0.event_count()
+    }
+}
 
 /// Evaluates WHERE clauses for sequence queries with event-specific field references.
 ///
@@ -249,7 +281,7 @@ impl SequenceWhereEvaluator {
         };
 
         // Create accessor for this zone
-        let accessor = PreparedAccessor::new(&zone.values);
+        let accessor = RenderedZoneAccessor(PreparedAccessor::new(&zone.values));
 
         // Evaluate conditions at the row index
         let result = evaluator.evaluate_row_at(&accessor, row_index.row_idx);
